@@ -181,6 +181,30 @@ def calls(fam: str, a: dict) -> List[Tuple[str, List[Any], Callable[[], Any]]]:
         ms = [np.ones((2 + i, c)) for i, c in enumerate(a["cols"])]
         out.append(("khatrirao", ms, lambda: ttb.khatrirao(*ms)))
         out.append(("khatrirao(reverse)", ms, lambda: ttb.khatrirao(*ms, reverse=True)))
+    elif fam == "k_arrange_perm":
+        K = mk_kt([2, 3, 2], [a["R"]] * 3)
+        for form, nm in ((I, "array"), (list, "list"), (tuple, "tuple")):
+            out.append((f"ktensor.arrange(permutation:{nm})", [K], (lambda form=form: K.arrange(permutation=form(a["perm"])))))
+    elif fam == "k_update":
+        K = mk_kt(a["rows"], [a["R"]] * len(a["rows"]))
+        data = np.arange(1.0, max(a["datalen"], 0) + 1)
+        out.append(("ktensor.update", [K], lambda: K.update(I(a["modes"]) if len(a["modes"]) > 1 else int(a["modes"][0]), data)))
+    elif fam == "sp_reshape_modes":
+        for k, o in holders(a["shape"], ["sparse"]):
+            out.append(("sptensor.reshape(old_modes)", [o], (lambda o=o: o.reshape(tuple(a["target"]), I(a["old_modes"])))))
+    elif fam == "ctor_tenmat":
+        ms = a["mshape"]
+        data = np.arange(1.0, ms[0] * ms[1] + 1).reshape(ms[0], ms[1], order="F")
+        out.append(("tenmat.__init__", [data], lambda: ttb.tenmat(data, I(a["rdims"]), I(a["cdims"]), tuple(a["shape"]))))
+    elif fam == "ctor_sptenmat":
+        subs = np.array([[0, 0], [a["maxrow"], a["maxcol"]]])
+        vals = np.array([[1.0], [2.0]])
+        out.append(("sptenmat.__init__", [subs, vals], lambda: ttb.sptenmat(subs, vals, I(a["rdims"]), I(a["cdims"]), tuple(a["shape"]))))
+    elif fam == "ctor_sptensor_neg":
+        N = len(a["shape"])
+        subs = np.array([[0] * N, [a["minsub"]] + [0] * (N - 1)]) if a["minsub"] != 0 else np.array([[0] * N, [1] + [0] * (N - 1)])
+        vals = np.array([[1.0], [2.0]])
+        out.append(("sptensor.__init__", [subs, vals], lambda: ttb.sptensor(subs, vals, tuple(a["shape"]))))
     elif fam == "als_options":
         X = mk_dense(a["shape"])
         init = mk_kt(a["initrows"], a["initcols"])
@@ -249,7 +273,7 @@ def main(tier: str) -> int:
         return core.replay_file(core.replay_arg(), PROP, "c19", "Requests_Trace")
     out = Outcome(PROP, tier)
     jobs = []
-    for fams in (["ttv"], ["ttm"], ["mttkrp"], ["permute"], ["misc"]):
+    for fams in (["ttv"], ["ttm"], ["mttkrp"], ["permute"], ["misc"], ["more"]):
         cfg = ("SPECIFICATION Spec\nCONSTANTS\n Fams = {%s}\nINVARIANT OneClause\n"
                % ", ".join(f'"{f}"' for f in fams))
         jobs.append(dict(module="Requests_Gen", cfg_text=cfg, timeout=3000))
